@@ -615,6 +615,8 @@ def run(rep):
         rep.add_bounded(f"{P}/bounded.{res['name']}", res['ok'], res['detail'], replay={'kind': 'c14.verbose', 'name': res['name']})
     for res in R14.alpha_s_self_cases():
         rep.add_bounded(f"{P}/bounded.{res['name']}", res['ok'], res['detail'], replay={'kind': 'c14.alpha_self', 'name': res['name']})
+    for res in R14.standard_thickness_cases():
+        rep.add_bounded(f"{P}/bounded.{res['name']}", res['ok'], res['detail'], replay={'kind': 'c14.std_thickness', 'name': res['name']})
     for res in R14.entry_adsorbate_cases():
         rep.add_bounded(f"{P}/bounded.{res['name']}", res['ok'], res['detail'], replay={'kind': 'c14.adsorbate', 'name': res['name']})
     rep.shape_bounded = {'N': nmax, 'what': f'arrays of 3..{nmax} symbolic, strictly increasing pressures', 'obligations': len(obs)}
